@@ -242,6 +242,12 @@ func OptGenStage(r *rand.Rand, nest int) string {
 	case 17:
 		return fmt.Sprintf("tail %d", 1+r.Intn(4))
 	case 18:
+		if nest < 2 {
+			// `uniq` pulled again after an end of stream (inside an over body, a fork leg …)
+			// dereferences a nil `last` in a runtime goroutine, which kills the process in
+			// every plan
+			return "pass"
+		}
 		return []string{"uniq", "uniq -c"}[r.Intn(2)]
 	case 19:
 		return "fuse"
